@@ -434,11 +434,18 @@ def expCount (net : Net) (ev : List (Nat × Nat)) : Nat → St × Rat × Rat →
 
 /-! ## names (`CodeGenerator.__generate_mapping__`) -/
 
-/-- `re.sub("[^A-Za-z0-9_]+", "", name.lower())`, `"_"` when nothing is left; the random digits appended
-    on a collision are not modelled (the harness checks base + digits and distinctness) -/
+/-- `RESERVED_NAMES` of bayesnet/code_generator.py: identifiers that Polar's loop language or symengine's
+    sympify do not read as a plain variable -/
+def reservedNames : List String :=
+  ["true", "false", "if", "elif", "else", "end", "while", "types", "e", "pi", "oo", "zoo", "nan", "inf"]
+
+/-- `re.sub("[^A-Za-z0-9_]+", "", name.lower())`, `"_"` when nothing is left, a `"_"` appended when the result
+    is a reserved name; the random digits appended on a collision are not modelled (the harness checks
+    base + digits and distinctness) -/
 def sanitize (s : String) : String :=
   let t := String.ofList ((s.toList.map Char.toLower).filter (fun c => c.isAlphanum || c == '_'))
-  if t.isEmpty then "_" else t
+  let t := if t.isEmpty then "_" else t
+  if reservedNames.contains t then t ++ "_" else t
 
 /-! ## well-formedness used by the theorems -/
 
